@@ -896,19 +896,30 @@ Fixpoint sweep (n : nat) (lim : Z) (f : Z -> obs) (prev : option obs) : list obs
       end
   end.
 
-(* sequences of low-level Renderer calls: add_question / add_rrset, TooBig caught by the caller
-   (the renderer has rolled back) and the sequence continues; any other exception ends it *)
-Inductive rop := RQ (n : name) (t c : Z) | RRS (sec : Z) (rs : rrset).
+(* sequences of low-level Renderer calls (dns.renderer.Renderer used directly): add_question / add_rrset /
+   reserve / release_reserved / add_opt / write_header / _write_tsig; TooBig is caught by the caller (the
+   renderer has rolled back) and the sequence continues; any other exception ends it *)
+Inductive rop :=
+| RQ (n : name) (t c : Z) | RRS (sec : Z) (rs : rrset)
+| RRES (size : Z) | RREL | ROPT (o : optrec) (pad os ts : Z) | RHDR | RTSIG (kn : name) (rd : rdata).
 
-Fixpoint run_rops (origin : option name) (ops : list rop) (r : rst) (acc : list obs) : list obs * rst :=
+Definition rop_step (origin : option name) (id : Z) (op : rop) (r : rst) : res (bool * rst) :=
+  match op with
+  | RQ n t c => add_question origin n t c r
+  | RRS s rs => add_rrset origin s rs r
+  | RRES size => do r' <- reserve size r; Ok (false, r')
+  | RREL => Ok (false, release_reserved r)
+  | ROPT o pad os ts => add_opt origin o pad os ts r
+  | RHDR => do r' <- write_header id r; Ok (false, r')
+  | RTSIG kn rd => write_tsig origin kn rd r
+  end.
+
+Fixpoint run_rops (origin : option name) (id : Z) (ops : list rop) (r : rst) (acc : list obs) : list obs * rst :=
   match ops with
   | [] => (rev acc, r)
   | op :: rest =>
-      match (match op with
-             | RQ n t c => add_question origin n t c r
-             | RRS s rs => add_rrset origin s rs r
-             end) with
-      | Ok (big, r') => run_rops origin rest r' (I (if big then 1 else 0) :: acc)
+      match rop_step origin id op r with
+      | Ok (big, r') => run_rops origin id rest r' (I (if big then 1 else 0) :: acc)
       | Lib e => (rev (E e :: acc), r)
       | Internal e => (rev (E e :: acc), r)
       end
@@ -916,6 +927,15 @@ Fixpoint run_rops (origin : option name) (ops : list rop) (r : rst) (acc : list 
 
 Definition rop_of_obs (o : obs) : option rop :=
   match o with
+  | L [I 10; I size] => Some (RRES size)
+  | L [I 11] => Some RREL
+  | L [I 12; L [I f; I p; L os]; I pad; I osz; I tsz] =>
+      match list_of_obs option_of_obs os with
+      | Some os => Some (ROPT (mkOpt f p os) pad osz tsz) | None => None end
+  | L [I 13] => Some RHDR
+  | L [I 14; L kn; rd] =>
+      match name_of_obs kn, rdata_of_obs rd with
+      | Some kn, Some rd => Some (RTSIG kn rd) | _, _ => None end
   | L [I 0; L n; I t; I c] => match name_of_obs n with Some n => Some (RQ n t c) | None => None end
   | L [I s; rs] => match rrset_of_obs rs with Some rs => Some (RRS s rs) | None => None end
   | _ => None
@@ -955,7 +975,7 @@ Definition run (c : obs) : obs :=
   | L [I 7; o; I id; I flags; I max_size; L ops] =>
       match oname_of_obs o, list_of_obs rop_of_obs ops with
       | Some o, Some ops =>
-          let '(res, r) := run_rops o ops (mkRst (repeat 0 12) [] 0 0 0 0 0 flags max_size 0 false) [] in
+          let '(res, r) := run_rops o id ops (mkRst (repeat 0 12) [] 0 0 0 0 0 flags max_size 0 false) [] in
           L [L res; obs_of_res (fun r' => B (out r')) (write_header id r)]
       | _, _ => E eBadObs
       end
